@@ -341,12 +341,15 @@ Definition set_ad (r : reg) (a : list (akey * value)) : reg :=
 Definition set_su (r : reg) (s : list (skey * list value)) : reg :=
   mkReg (adapters r) s (provided_cnt r) (extendors r) (generation r).
 
+Lemma filter_len_le {A} (f : A -> bool) (l : list A) : length (filter f l) <= length l.
+Proof. induction l as [|x l IH]; cbn; auto. destruct (f x); cbn; lia. Qed.
+
 Lemma filter_length_eq {A} (f : A -> bool) (l : list A) : length (filter f l) = length l -> filter f l = l.
 Proof.
   induction l as [|x l IH]; cbn; auto.
   destruct (f x); cbn; intros H.
   - f_equal. apply IH. lia.
-  - pose proof (filter_length_le f l). lia.
+  - pose proof (filter_len_le f l). lia.
 Qed.
 
 Section Cases.
@@ -397,7 +400,7 @@ Section Cases.
     match v with None => [] | Some v' => filter (fun x => negb (v_eq x v')) old end.
 
   Lemma unsub_new_le old v : length (unsub_new old v) <= length old.
-  Proof. destruct v; cbn; [apply filter_length_le | lia]. Qed.
+  Proof. destruct v; cbn; [apply filter_len_le | lia]. Qed.
 
   Lemma unsubscribe_cases r req p v :
     let k := (map conv req, p) in
@@ -416,14 +419,17 @@ Section Cases.
                                           | _ => aset skey_eqb (subscribers r) k new end)
                       end)).
   Proof.
-    intros k old new. unfold unsubscribe. fold k. fold old. fold (unsub_new old v). fold new.
-    destruct old as [|x old'] eqn:EO.
-    - left. split; auto. subst new. destruct v; auto.
-    - rewrite <- EO. destruct (Nat.eqb (length new) (length old)) eqn:E.
-      + left. apply Nat.eqb_eq in E. subst old. rewrite EO. split; auto.
-        subst new. destruct v as [v'|]; cbn in *; [|discriminate].
-        rewrite <- EO in *. apply filter_length_eq; auto.
+    intros k old new. subst old new. unfold unsubscribe. fold k.
+    destruct (sub_leaf r k) as [|x old'] eqn:EO.
+    - left; split; auto. destruct v; auto.
+    - cbv zeta. set (old := x :: old') in *.
+      change (match v with None => [] | Some v' => filter (fun x0 => negb (v_eq x0 v')) old end) with (unsub_new old v).
+      set (new := unsub_new old v).
+      destruct (Nat.eqb (length new) (length old)) eqn:E.
+      + left. split; auto. apply Nat.eqb_eq in E. subst new. destruct v as [v'|]; unfold unsub_new in *.
+        * apply filter_length_eq; auto.
+        * subst old; discriminate.
       + right. apply Nat.eqb_neq in E. pose proof (unsub_new_le old v). fold new in H.
-        split; [lia|]. subst old. rewrite EO. reflexivity.
+        split; [lia|]. reflexivity.
   Qed.
 End Cases.
